@@ -563,3 +563,105 @@ def p_sentinel_only_on_rollover(sw, f):
             if rest:
                 return ("record-after-sentinel", "a record is appended to a segment after its end marker", dict(pred="sentinel_on_rollover"))
     return None
+
+
+# ---- content of what is written (C03/C20: the abstraction step) ---------------------------------------
+
+def _record_parts(data):
+    """wal write event data -> (version term, op value) or None (sentinel / unknown)"""
+    chunks = []
+    for d in data:
+        if isinstance(d, tuple) and d and d[0] == "record":
+            chunks += list(d[1])
+        else:
+            chunks.append(d)
+    flat = []
+    for c in chunks:
+        while isinstance(c, tuple) and len(c) == 2 and c[0] == "chunk":
+            c = c[1]
+        flat.append(c)
+    les = [c for c in flat if isinstance(c, tuple) and c and c[0] == "le-bytes"]
+    ops = [c for c in flat if isinstance(c, tuple) and c and c[0] == "bytes" and isinstance(c[1], tuple) and c[1] and c[1][0] == "op"]
+    if les and ops:
+        return les[0][1], ops[0][1][1]
+    return None
+
+
+def make_p_record_content(ex):
+    def p(sw, f):
+        """C03/C20: a successful operation appends exactly ONE record; its version is the next unused
+        version, it goes to the segment that version belongs to, and it encodes exactly the operation
+        that is applied to the in-memory index"""
+        rv = f.retval
+        if f.status != "returned" or not isinstance(rv, VEnum) or rv.concrete() != 0:
+            return None
+        recs = []
+        for i, e in _io(f):
+            if e["op"] == "write" and e["outcome"] == "ok" and e["path"][0] == "wal":
+                r = _record_parts(e.get("data", []))
+                if r is not None:
+                    recs.append((e, r))
+        mutated = any(e["kind"] == "index-mutation" for e in f.trace)
+        if not recs:
+            if mutated:
+                return ("mutation-without-record", "the index is changed without a WAL record", dict(pred="record_content"))
+            return None
+        if len(recs) != 1:
+            return ("several-records", f"one operation appends {len(recs)} records", dict(pred="record_content"))
+        e, (ver, op) = recs[0]
+        N = sw.N
+        seg = e["path"][1]
+        if ex.feasible(f.pc, ver != sw.next):
+            return ("version-not-next", "the record's version is not the next unused version", dict(pred="record_content"))
+        if ex.feasible(f.pc, z3.Not(z3.And(seg * N < ver, ver <= (seg + 1) * N))):
+            return ("wrong-segment", "the record is appended to a segment its version does not belong to", dict(pred="record_content"))
+        k = getattr(sw, "op_key", None)
+        if k is not None and isinstance(op, VEnum):
+            ci = op.concrete()
+            if ci == 0:
+                kk, hh, ss = op.payloads[0][0].t, op.payloads[0][1].t, op.payloads[0][2].t
+                want = [kk != k]
+                if hasattr(sw, "op_hash"):
+                    want.append(hh != sw.op_hash)
+                if hasattr(sw, "op_size"):
+                    want.append(ss != sw.op_size)
+                if ex.feasible(f.pc, z3.Or(want)):
+                    return ("record-not-the-op", "the logged Put differs from the committed (key, hash, size)", dict(pred="record_content"))
+            elif ci == 1:
+                ks = op.payloads[1][0].elems
+                if len(ks) == 1 and ex.feasible(f.pc, ks[0].t != k):
+                    return ("record-not-the-op", "the logged Remove names another key", dict(pred="record_content"))
+        return None
+    return p
+
+
+def make_p_snapshot_content(ex):
+    def p(sw, f):
+        """C03/C20: a snapshot that is written holds the in-memory map of that moment and is labelled with
+        the highest version written so far (so snapshot + later records = acknowledged history)"""
+        w = sw.iw
+        wrote_rec = False
+        for i, e in _io(f):
+            if e["op"] == "write" and e["path"][0] == "wal" and _record_parts(e.get("data", [])) is not None and e["outcome"] == "ok":
+                wrote_rec = True
+            if e["op"] == "write" and e["outcome"] == "ok" and e["path"] == ("index.tmp",):
+                snap = None
+                for d in e.get("data", []):
+                    if isinstance(d, tuple) and len(d) == 2 and isinstance(d[1], tuple) and d[1] and d[1][0] == "snapshot":
+                        snap = d[1]
+                if snap is None:
+                    return ("snapshot-unknown-content", "index.tmp is written with something that is not the serialised index",
+                            dict(pred="snapshot_content"))
+                m, lpv = snap[1], snap[2]
+                vt = lpv.payloads[1][0].t if (isinstance(lpv, VEnum) and 1 in lpv.payloads and lpv.payloads[1]) else None
+                highest = sw.next if wrote_rec else sw.next - 1
+                if vt is None or ex.feasible(f.pc, z3.Or(lpv.disc != 1, vt != highest)):
+                    return ("snapshot-version", "the snapshot is not labelled with the highest written version", dict(pred="snapshot_content"))
+                cur = f.load(sw.state_ref).fields[0]
+                diff = z3.Or([z3.Or(z3.Select(m.present, u) != z3.Select(cur.present, u),
+                                    z3.And(z3.Select(m.present, u), z3.Select(m.cols["blob_hash"], u) != z3.Select(cur.cols["blob_hash"], u)))
+                              for u in w.keys])
+                if ex.feasible(f.pc, diff):
+                    return ("snapshot-map", "the snapshot does not hold the in-memory map", dict(pred="snapshot_content"))
+        return None
+    return p
